@@ -10,7 +10,7 @@ RULE = ("8 small models (chain; loop with tank; pump + tank with level controls 
         "k-th NewtonSolver.solve runs with maxiter=1; singular Jacobian: the k-th solve sees a Jacobian with a zeroed row (from its first or from its second iteration on), which "
         "makes spsolve raise the library's MatrixRankWarning; line-search failure: BT_MAXITER=1 and a perturbed start} x "
         "convergence_error {False, True} x backup solver {none, succeeding, failing too}; trial-limit faults: trials {0, 1} and two "
-        "mutually contradicting pressure controls.  thorough adds every PAIR of faults k1 < k2 with a succeeding backup and "
+        "mutually contradicting pressure controls; fault-free shape family: 3 (7) models x duration {0, < step, off grid, ...} x hydraulic step {1 h, 30 min, 45 min} x report step {= step, 2 h, 90 min, 15 min, ALL}.  thorough adds every PAIR of faults k1 < k2 with a succeeding backup and "
         "30-min steps.  non-trivial: the injected fault really made the k-th solve return SolverStatus.error")
 ASSUMPTIONS = ["faults are injected by wrapping NewtonSolver.solve / Model.evaluate_jacobian in the harness process; the library's own error paths are executed",
                "termination is judged against a 60 s wall-clock horizon per execution"]
@@ -182,6 +182,12 @@ def cases(tier):
         out.append({"model": "resolve", "mode": "trials", "trials": tr})
         out.append({"model": "pumpctl", "mode": "trials", "trials": tr})
     out.append({"model": "contradiction", "mode": "contradiction"})
+    # shape of the fault-free result tables over the time options: duration (zero, shorter than a step, off the grid), hydraulic
+    # step, report step (equal, multiple, not a multiple of the hydraulic step, 'ALL')
+    durs = (0, 1800, 3600, 16200, 21600) if tier == "quick" else (0, 1, 1800, 3600, 5400, 16200, 21600, 30000)
+    for name in ("looptank", "pumpctl", "all_offgrid") if tier == "quick" else ("chain", "looptank", "pumpctl", "pdd", "isolated", "all_offgrid", "resolve"):
+        for dur, hyd, rep in itertools.product(durs, (3600, 1800, 2700), (None, 7200, 5400, 900, "ALL")):
+            out.append({"model": name, "mode": "shape", "dur": dur, "hyd": hyd, "rep": rep})
     return out
 
 
@@ -282,6 +288,40 @@ def run_case(c):
                     viol.append({"key": "hidden:no-warning", "what": "contradicting controls: error_code set but no warning"})
         return {"viol": viol, "nontrivial": True, "outcome": "contradiction", "counts": counts}
     s = get_spec(c)
+    if c["mode"] == "shape":
+        hyd = c["hyd"]
+        rep = hyd if c["rep"] is None else c["rep"]
+        s["opts"].update(dur=c["dur"], hyd=hyd, rep=rep, pat=min(s["opts"].get("pat", 3600), hyd))
+        o = run_model(s, {}, False, False)
+        counts["executions"] = 1
+        if o["raised"] is not None or o["error_code"] is not None:
+            return {"viol": [{"key": "shape:run-fails", "what": "fault-free run with duration %d, hydraulic step %d, report step %s does not complete: %s %s" % (c["dur"], hyd, rep, o["raised"], o["warnings"][:1])}], "nontrivial": True, "outcome": "shape", "counts": counts}
+        s_eff = clone(s)
+        adjusted = rep != "ALL" and rep % hyd != 0
+        if rep != "ALL" and rep < hyd:
+            # documented behaviour: the hydraulic step is reduced to the report step, and the run says so
+            if not any("hydraulic timestep" in w.lower() for w in o["warnings"]):
+                viol.append({"key": "shape:hydraulic-step-adjusted-silently", "what": "report step %d is shorter than the hydraulic step %d and no warning says how it was adjusted" % (rep, hyd)})
+            hyd = rep
+        elif adjusted:
+            # documented behaviour: the report step is reduced to a multiple of the hydraulic step, and the run says so
+            s_eff["opts"]["rep"] = max(hyd, rep // hyd * hyd)
+            if not any("report timestep" in w.lower() for w in o["warnings"]):
+                viol.append({"key": "shape:report-step-adjusted-silently", "what": "report step %d is not a multiple of the hydraulic step %d and no warning says how it was adjusted" % (rep, hyd)})
+        wv, idx = wellformed(s_eff, o["wn"], o["res"])
+        viol += wv
+        last = c["dur"] // hyd * hyd
+        solved = sorted(set(int(t) for _, t, _, _ in o["calls"]))
+        if rep == "ALL":
+            if idx != solved:
+                viol.append({"key": "shape:ALL-not-every-solved-step", "what": "'ALL' reporting gives %s, solved instants %s (duration %d, step %d)" % (idx, solved, c["dur"], hyd)})
+        else:
+            exp = list(range(0, last + 1, s_eff["opts"]["rep"]))
+            if idx != exp:
+                viol.append({"key": "shape:report-grid", "what": "duration %d, hydraulic step %d, report step %s: reported %s, report grid %s" % (c["dur"], hyd, rep, idx, exp)})
+        if solved and (solved[0] != 0 or solved[-1] != last or any(t % hyd == 0 and t not in solved for t in range(0, last + 1, hyd))):
+            viol.append({"key": "shape:hydraulic-grid", "what": "duration %d, hydraulic step %d: solved instants %s do not cover the hydraulic grid up to %d" % (c["dur"], hyd, solved, last)})
+        return {"viol": viol[:4], "nontrivial": c["dur"] >= hyd, "outcome": "shape:%s" % ("ALL" if rep == "ALL" else ("adjusted" if adjusted else "grid")), "counts": counts}
     if c["mode"] == "trials":
         ref = run_model(s, {}, False, False)
         s2 = clone(s)
